@@ -103,6 +103,9 @@ var kvModel = porcupine.Model{
 			return true, encState(m)
 		case 1:
 			return decState(st)[i.k] == o.v, st
+		case 3:
+			_, present := decState(st)[i.k]
+			return fmt.Sprint(present) == o.v, st
 		default:
 			return st == o.cut, st
 		}
@@ -116,6 +119,8 @@ var kvModel = porcupine.Model{
 			return fmt.Sprintf("write %v", i.w)
 		case 1:
 			return fmt.Sprintf("get %s -> %q", i.k, o.v)
+		case 3:
+			return fmt.Sprintf("has %s -> %s", i.k, o.v)
 		}
 		return fmt.Sprintf("cut -> {%s}", o.cut)
 	},
@@ -291,6 +296,43 @@ func runProgram(c *PCase) (st pStats, err error) {
 						return
 					}
 					record(cid, linIn{kind: 2}, linOut{cut: cut}, call, ret)
+				case "snapget":
+					// the same cut, read through Snapshot.Get / Has of every key a little later
+					sn, e := db.GetSnapshot()
+					ret := int64(time.Since(start))
+					if e != nil {
+						firstErr.CompareAndSwap(nil, fmt.Errorf("client %d GetSnapshot: %v", cid, e))
+						return
+					}
+					time.Sleep(time.Duration(op.N%200) * time.Microsecond)
+					m := map[string]string{}
+					for k := 0; k < c.NKeys; k++ {
+						v, e := sn.Get([]byte(key(k)), nil)
+						h, he := sn.Has([]byte(key(k)), nil)
+						if (e != nil && e != leveldb.ErrNotFound) || he != nil {
+							firstErr.CompareAndSwap(nil, fmt.Errorf("client %d Snapshot.Get/Has: %v %v", cid, e, he))
+							sn.Release()
+							return
+						}
+						if h != (e == nil) {
+							firstErr.CompareAndSwap(nil, fmt.Errorf("client %d: Snapshot.Has(%s)=%v but Get err=%v", cid, key(k), h, e))
+							sn.Release()
+							return
+						}
+						if e == nil {
+							m[key(k)] = strings.SplitN(string(v), "|", 2)[0]
+						}
+					}
+					sn.Release()
+					record(cid, linIn{kind: 2}, linOut{cut: encState(m)}, call, ret)
+				case "has":
+					h, e := db.Has([]byte(key(op.K)), nil)
+					ret := int64(time.Since(start))
+					if e != nil {
+						firstErr.CompareAndSwap(nil, fmt.Errorf("client %d Has: %v", cid, e))
+						return
+					}
+					record(cid, linIn{kind: 3, k: key(op.K)}, linOut{v: fmt.Sprint(h)}, call, ret)
 				case "iterscan":
 					it := db.NewIterator(nil, nil)
 					ret := int64(time.Since(start))
@@ -363,7 +405,7 @@ func drawPCase(t *rapid.T) *PCase {
 		DisableSeeksComp: rapid.Bool().Draw(t, "noseek"), OpenFilesCap: rapid.SampledFrom([]int{0, 2}).Draw(t, "ofc")}
 	c.NKeys = rapid.IntRange(2, 6).Draw(t, "nkeys")
 	nc := rapid.IntRange(2, 6).Draw(t, "clients")
-	kinds := []string{"put", "put", "put", "del", "batch", "batch", "get", "get", "get", "snapscan", "iterscan", "tr"}
+	kinds := []string{"put", "put", "put", "del", "batch", "batch", "get", "get", "has", "snapscan", "snapget", "iterscan", "tr"}
 	og := rapid.Custom(func(t *rapid.T) POp {
 		op := POp{T: rapid.SampledFrom(kinds).Draw(t, "op"), K: rapid.IntRange(0, c.NKeys-1).Draw(t, "k")}
 		op.N = rapid.SampledFrom([]int{0, 10, 100, 300, 1200}).Draw(t, "n")
